@@ -81,10 +81,28 @@ def render(e):
     raise ValueError(k)
 
 
+def render_having(h):
+    if h is None:
+        return ""
+    aggop, comp, cmpop, lit = h
+    return " having %s(%s) %s %s" % (aggop, comp or "", cmpop, render(lit))
+
+
+def render_group(mode, ids):
+    return "" if mode == "none" else " group %s %s" % (mode, ", ".join(ids))
+
+
 def render_ds(ir):
     k = ir[0]
     if k == "ds":
         return ir[1]
+    if k == "agg":
+        return "%s(%s%s%s)" % (ir[1], render_ds(ir[2]), render_group(ir[3], ir[4]), render_having(ir[5]))
+    if k == "aggrclause":
+        items = ", ".join("%s%s := %s(%s)" % ({"M": "", "A": "attribute "}[role], name, op, comp or "") for name, role, op, comp in ir[2])
+        return "%s [aggr %s%s%s]" % (render_ds(ir[1]), items, render_group(ir[3], ir[4]), render_having(ir[5]))
+    if k == "setop":
+        return "%s(%s)" % (ir[1], ", ".join(render_ds(o) for o in ir[2]))
     if k == "dsbin":
         if ir[1] in ("mod", "power", "log"):
             return "%s(%s, %s)" % (ir[1], render_ds(ir[2]), render_ds(ir[3]))
@@ -456,3 +474,72 @@ def clause_chain(draw, base_ir, structs, length, depth=2):
             v = draw(st.sampled_from(ID_VALUES.get(i, [1])))
             ir = ("clause", "sub", ir, [(i, (comps[i][1], v))])
     return ir
+
+
+# ---------------------------------------------------------------- aggregations / set operators
+AGG_OPS = ["sum", "avg", "count", "min", "max", "median", "stddev_pop", "stddev_samp", "var_pop", "var_samp"]
+
+
+@st.composite
+def agg_case(draw):
+    """(ci, ir) for C03: numeric dataset with 2-3 identifiers (repeated keys in the non-grouped ones), nulls, 0-12 rows."""
+    ci = draw(case_inputs(family="num", n_datasets=1, max_rows=12))
+    comps = ci["structs"]["DS_1"]
+    ids = [n for n, (r, t) in comps.items() if r == "I"]
+    meas = [n for n, (r, t) in comps.items() if r == "M"]
+    op = draw(st.sampled_from(AGG_OPS))
+    mode = draw(st.sampled_from(["by", "by", "except", "none"])) if ci["rows"]["DS_1"] else draw(st.sampled_from(["by", "except"]))
+    gids = draw(st.lists(st.sampled_from(ids), min_size=1, max_size=len(ids), unique=True)) if mode != "none" else []
+    if mode == "except" and len(gids) == len(ids) and len(ids) > 1:
+        gids = gids[:-1]
+    having = None
+    # having: the engine accepts it only on single-measure operands (otherwise a raw ValueError, recorded under C32)
+    if mode != "none" and len(meas) == 1 and draw(st.integers(0, 1)) == 0:
+        hop = draw(st.sampled_from(["avg", "sum", "max", "min", "count"]))
+        having = (hop, None if hop == "count" else draw(st.sampled_from(meas)), draw(st.sampled_from([">", ">=", "<", "="])),
+                  ("lit", "Integer", draw(st.sampled_from([0, 1, 2]))) if hop == "count" else draw(literal("Number")))
+    if op == "count":
+        # count semantics with null measures are not settled by the offline sources: count only over complete datapoints
+        ci = dict(ci, rows={"DS_1": [dict(r, **{m: (r[m] if r[m] is not None else "1") for m in meas}) for r in ci["rows"]["DS_1"]]})
+    if draw(st.integers(0, 2)) == 0 and mode != "none":
+        items = []
+        for j in range(draw(st.integers(1, 3))):
+            o = draw(st.sampled_from([x for x in AGG_OPS if x != "count"]))
+            items.append(("a_%d" % (j + 1), draw(st.sampled_from(["M", "M", "A"])), o, draw(st.sampled_from(meas))))
+        return ci, ("aggrclause", ("ds", "DS_1"), items, mode, gids, None)
+    return ci, ("agg", op, ("ds", "DS_1"), mode, gids, having)
+
+
+@st.composite
+def setop_case(draw):
+    """(ci, ir) for C05: 2-4 structurally equal operands with arbitrary key overlap and conflicting measures."""
+    fam = draw(st.sampled_from(["num", "str", "bool"]))
+    base = draw(case_inputs(family=fam, n_datasets=1, max_rows=6))
+    comps = base["structs"]["DS_1"]
+    k = draw(st.integers(2, 4))
+    ids = [(n, t) for n, (r, t) in comps.items() if r == "I"]
+    structs, rows = {}, {}
+    for d in range(1, k + 1):
+        structs["DS_%d" % d] = dict(comps)
+        keys = draw(st.lists(st.tuples(*[st.sampled_from(ID_VALUES[n]) for n, _ in ids]), min_size=0, max_size=6, unique=True))
+        rr = []
+        for key in keys:
+            r = {n: str(v) for (n, _), v in zip(ids, key)}
+            for n, (role, t) in comps.items():
+                if role != "I":
+                    r[n] = draw(st.one_of(st.none(), st.sampled_from(POOL[t])))
+            rr.append(r)
+        rows["DS_%d" % d] = rr
+    ci = dict(structs=structs, rows=rows, family=fam)
+    op = draw(st.sampled_from(["union", "union", "intersect", "intersect", "setdiff", "symdiff"]))
+    n = k if op in ("union", "intersect") else 2
+    names = draw(st.permutations(sorted(structs)))[:max(2, n)]
+    operands = []
+    for nm in names:
+        o = ("ds", nm)
+        if draw(st.integers(0, 3)) == 0:
+            o = ("clause", "filter", o, ("bin", "<>", ("comp", ids[0][0]), ("lit", ids[0][1], ID_VALUES[ids[0][0]][0])))
+        operands.append(o)
+    if op in ("setdiff", "symdiff"):
+        operands = operands[:2]
+    return ci, ("setop", op, operands)
